@@ -91,6 +91,8 @@ Definition to_json (c : jclass) (o : obj) : str :=
 
 Definition absent_text (s : str) : bool := Nat.eqb (List.length s) 0 || str_eqb s neo4j_none.
 
+Definition known_key (c : jclass) (kv : str * json) : bool := ahas (fst kv) (jc_fields c).
+
 Section WithValidators.
   (* Labels.VALIDATORS / LAMBDA_VALIDATORS applied to known field k and value v (property C16 is about
      WHICH values they accept; C03 only needs that the same test is applied on construction and decoding) *)
@@ -119,15 +121,14 @@ Section WithValidators.
   (* JSONField.update(lab, kw): a new instance with lab's attributes, then _set_fields *)
   Definition update (c : jclass) (o : obj) (kw : obj) : res obj := set_fields c false kw o.
 
-  (* the JSON-value half of from_json: cls()._set_fields(forgiving=True, d) *)
+  (* the JSON-value half of from_json: keys that are not fields of a fresh instance are skipped BEFORE
+     _set_fields looks at their values (a836d08); then cls()._set_fields(forgiving=True, known) *)
   Definition of_dict (c : jclass) (d : obj) : res obj := set_fields c true d (defaults c).
 
   Definition of_jv (c : jclass) (j : json) : res (option obj) :=
     match j with
-    | JObj d =>
-      if ahas (S"forgiving") d || ahas (S"self") d then Err e_type       (* multiple values for argument *)
-      else match of_dict c d with Ok o => Ok (Some o) | Err e => Err e end
-    | _ => Err e_type                                                   (* a mapping is needed *)
+    | JObj d => match of_dict c (filter (known_key c) d) with Ok o => Ok (Some o) | Err e => Err e end
+    | _ => Err e_attr                                                   (* no .items *)
     end.
 
   Definition from_json (c : jclass) (t : option str) : res (option obj) :=
